@@ -431,6 +431,20 @@ def is_cell_label(s):
     return isinstance(s, str) and re.match(r'\$?[A-Za-z]+\$?[0-9]+\Z', s) is not None
 
 
+def acot(x):
+    return math.pi / 2 if x == 0 else math.atan(1 / x)
+
+
+def acoth(x):
+    if -1 <= x <= 1:
+        raise ValueError('math domain error')
+    return 0.5 * math.log((x + 1) / (x - 1))
+
+
+def cot(x):
+    return math.cos(x) / math.sin(x)
+
+
 def col_value(s):
     v = 0
     for ch in s.upper():
@@ -513,7 +527,7 @@ def ceil(x):
 NATIVE_NAMES = ['Outcome', 'Dom', 'NONE_T', 'BOOL', 'INT', 'FLOAT', 'STR', 'ERR', 'DATE', 'NUMBER', 'NUMBERB', 'SCALAR',
                 'HOSTOBJ', 'ANY', 'VALUE_T', 'SEQ', 'ARGS', 'CONST', 'CHOICE', 'TUPLE', 'LISTN', 'OBJECT', 'HOSTFN', 'DDICT', 'choice', 'ddict', 'listener', 'has_attr', 'get_attr', 'is_closure', 'SYMMAP', 'SYMMAP_LISTS', 'OMITTED', 'host_calls', 'emits', 'setter_values', 'registry_has', 'registry_fn', 'map_has', 'map_get', 'PROD', 'str_of_symbol', 'calls', 'call_result', 'result_of', 'contract',
                 'lemma', 'is_none', 'is_bool', 'is_int', 'is_float', 'is_num', 'is_numb', 'is_str', 'is_err', 'is_date',
-                'is_list', 'is_obj', 'same', 'truthy', 'implies', 'raises', 'raise_err', 'forall', 'exists', 'flat', 'collapse_spaces', 'replace_kth', 'col_value', 'col_label', 'is_cell_label', 'is_digits', 'label_parts', 'parsed_label', 'parity_true', 'xl_type', 'date_us', 'date_from_us', 'dateutil_parse',
+                'is_list', 'is_obj', 'same', 'truthy', 'implies', 'raises', 'raise_err', 'forall', 'exists', 'flat', 'collapse_spaces', 'replace_kth', 'acot', 'acoth', 'cot', 'col_value', 'col_label', 'is_cell_label', 'is_digits', 'label_parts', 'parsed_label', 'parity_true', 'xl_type', 'date_us', 'date_from_us', 'dateutil_parse',
                 'int_of_text', 'text_is_int', 'float_of_text', 'text_is_float', 'errmsg', 'is_canonical', 'real',
                 'floor', 'ceil']
 ERR_NAMES = ['ERROR', 'DIV_ZERO', 'NAME', 'NOT_AVAILABLE', 'NULL', 'NUM', 'REF', 'VALUE', 'DATA']
@@ -562,8 +576,10 @@ class ObjSpec(object):
 SAMPLE_POOL = {
     'none': [None],
     'bool': [True, False],
-    'int': [0, 1, -1, 2, 3, -2, 5, 7, 10, 26, 27, 60, 61, 255, -40, 1000, 2**31, 2**40, -2**39, 2**53 + 1],
-    'float': [0.0, 0.5, -0.5, 1.0, 1.5, -1.5, 2.25, 3.7, -2.5, 61.25, 1e10, -1e-3, 0.1],
+    # moderate magnitudes only: huge integers turn FACT, 10**digits, rjust ... into (near) non-terminating native calls;
+    # contracts that need them (DEC2HEX, QUOTIENT ...) declare their own domain
+    'int': [0, 1, -1, 2, 3, -2, 5, 7, 10, 12, 26, 27, 60, 61, 255, -40, 1000],
+    'float': [0.0, 0.5, -0.5, 1.0, 1.5, -1.5, 2.25, 3.7, -2.5, 61.25, 12345.678, -1e-3, 0.1],
     'str': ['', 'a', 'A', 'abc', 'Abc Def', ' a  b ', '12', '35', '7', '57', '-3.5', '1e3', 'x*', 'a?c', '\tA\n', ' ', 'TRUE', '0',
             u'été', u'中文', 'aXbXc', '#N/A', '1900-03-01', 'A1', '$B$2', 'ab\x01c'],
     'date': [datetime.datetime(1900, 1, 1), datetime.datetime(1900, 2, 28), datetime.datetime(1900, 3, 1),
